@@ -56,3 +56,120 @@ package base
 // A time predicate is a function of the timestamp only (closures over values that are not modified afterwards).
 //@ callback TimePredicate(t) r
 //@   stable
+
+// ---- C01/C16: the slot chain.  Slots are user code: their calls are recorded in ghost sequences by the interface
+// contracts below, they may panic, and they are assumed not to touch the chain's slot lists or the identity fields
+// of the context (Resource, Input, entry, RuleCheckResult pointer) — only the content of the rule-check result.
+//@ spec func blocked(r) = r != nil && r.status == ResultStatusBlocked
+//@ ghost var gPrepN Int
+//@ ghost var gPrepRecv (Array Int Int)
+//@ ghost var gChkN Int
+//@ ghost var gChkRecv (Array Int Int)
+//@ ghost var gChkRes (Array Int Int)
+//@ ghost var gChkBlocked (Array Int Bool)
+//@ ghost var gPassN Int
+//@ ghost var gPassRecv (Array Int Int)
+//@ ghost var gBlkN Int
+//@ ghost var gBlkRecv (Array Int Int)
+//@ ghost var gBlkErr (Array Int Int)
+//@ ghost var gCompN Int
+//@ ghost var gCompRecv (Array Int Int)
+
+//@ iface StatPrepareSlot.Prepare(ctx)
+//@   panics may
+//@   ensures gPrepN == old(gPrepN) + 1 && gPrepRecv == upd(old(gPrepRecv), old(gPrepN), dynptr(this))
+//@   modifies gPrepN, gPrepRecv, ctx.StatNode
+
+//@ iface RuleCheckSlot.Check(ctx) r
+//@   panics may
+//@   ensures gChkN == old(gChkN) + 1 && gChkRecv == upd(old(gChkRecv), old(gChkN), dynptr(this)) && gChkRes == upd(old(gChkRes), old(gChkN), r) && gChkBlocked == upd(old(gChkBlocked), old(gChkN), blocked(r))
+//@   ensures r != nil ==> allocated(r)
+//@   modifies gChkN, gChkRecv, gChkRes, gChkBlocked, all(TokenResult.status), all(TokenResult.blockErr), all(TokenResult.nanosToWait)
+
+//@ iface StatSlot.OnEntryPassed(ctx)
+//@   panics may
+//@   ensures gPassN == old(gPassN) + 1 && gPassRecv == upd(old(gPassRecv), old(gPassN), dynptr(this))
+//@   modifies gPassN, gPassRecv, gAdded
+
+//@ iface StatSlot.OnEntryBlocked(ctx, blockError)
+//@   panics may
+//@   ensures gBlkN == old(gBlkN) + 1 && gBlkRecv == upd(old(gBlkRecv), old(gBlkN), dynptr(this)) && gBlkErr == upd(old(gBlkErr), old(gBlkN), blockError)
+//@   modifies gBlkN, gBlkRecv, gBlkErr, gAdded
+
+//@ iface StatSlot.OnCompleted(ctx)
+//@   panics may
+//@   ensures gCompN == old(gCompN) + 1 && gCompRecv == upd(old(gCompRecv), old(gCompN), dynptr(this))
+//@   modifies gCompN, gCompRecv, gAdded
+
+//@ func (sc *SlotChain) Entry(ctx) r
+//@   props C01, C16
+//@   requires sc != nil && ctx != nil && ctx.RuleCheckResult != nil
+//@   panics never
+//@   let p0 = gPrepN
+//@   let c0 = gChkN
+//@   let a0 = gPassN
+//@   let b0 = gBlkN
+//@   ensures[contained] r == nil ==> ctx.err != nil
+//@   ensures[prepare-all-in-order] r != nil ==> gPrepN == p0 + len(sc.statPres) && (forall j Int :: p0 <= j && j < gPrepN ==> sel(gPrepRecv, j) == dynptr(sc.statPres[j - p0]))
+//@   ensures[checks-in-order] r != nil ==> (forall j Int :: c0 <= j && j < gChkN ==> sel(gChkRecv, j) == dynptr(sc.ruleChecks[j - c0]))
+//@   ensures[first-block-wins] r != nil && blocked(r) ==> gChkN > c0 && gChkN <= c0 + len(sc.ruleChecks) && r == sel(gChkRes, gChkN - 1) && (forall j Int :: c0 <= j && j < gChkN - 1 ==> !sel(gChkBlocked, j))
+//@   ensures[pass-all-consulted] r != nil && !blocked(r) ==> gChkN == c0 + len(sc.ruleChecks) && (forall j Int :: c0 <= j && j < gChkN ==> !sel(gChkBlocked, j))
+//@   ensures[result-in-context] r != nil ==> r == ctx.RuleCheckResult
+//@   ensures[told-passed-once] r != nil && !blocked(r) ==> gPassN == a0 + len(sc.stats) && gBlkN == b0 && (forall j Int :: a0 <= j && j < gPassN ==> sel(gPassRecv, j) == dynptr(sc.stats[j - a0]))
+//@   ensures[told-blocked-once] r != nil && blocked(r) ==> gBlkN == b0 + len(sc.stats) && gPassN == a0 && (forall j Int :: b0 <= j && j < gBlkN ==> sel(gBlkRecv, j) == dynptr(sc.stats[j - b0]) && sel(gBlkErr, j) == ref(r.blockErr))
+//@   loop 1:
+//@     invariant gPrepN == p0 + #i && (forall j Int :: p0 <= j && j < gPrepN ==> sel(gPrepRecv, j) == dynptr(sc.statPres[j - p0]))
+//@   loop 2:
+//@     invariant gChkN == c0 + #i && (forall j Int :: c0 <= j && j < gChkN ==> sel(gChkRecv, j) == dynptr(sc.ruleChecks[j - c0]) && !sel(gChkBlocked, j))
+//@   loop 3:
+//@     invariant (blocked(ruleCheckRet) ? gBlkN == b0 + #i && gPassN == a0 : gPassN == a0 + #i && gBlkN == b0)
+//@     invariant forall j Int :: a0 <= j && j < gPassN ==> sel(gPassRecv, j) == dynptr(sc.stats[j - a0])
+//@     invariant forall j Int :: b0 <= j && j < gBlkN ==> sel(gBlkRecv, j) == dynptr(sc.stats[j - b0]) && sel(gBlkErr, j) == ref(ruleCheckRet.blockErr)
+
+// ghost in-flight gauge per statistic node (the real field is BaseStatNode.concurrency; C04/C07 read it)
+//@ ghost var gConc (Array Int Int)
+//@ iface StatNode.IncreaseConcurrency()
+//@   ensures gConc == upd(old(gConc), dynptr(this), sel(old(gConc), dynptr(this)) + 1)
+//@   modifies gConc
+//@ iface StatNode.DecreaseConcurrency()
+//@   ensures gConc == upd(old(gConc), dynptr(this), sel(old(gConc), dynptr(this)) - 1)
+//@   modifies gConc
+
+// ---- exit path
+//@ ghost var gHandlerN Int
+//@ callback ExitHandler(entry, ctx) err
+//@   panics may
+//@   ensures gHandlerN == old(gHandlerN) + 1
+//@   modifies gHandlerN
+//@ callback ExitOption(opts)
+//@   modifies fields(opts)
+
+//@ func (sc *SlotChain) exit(ctx)
+//@   props C01, C16
+//@   requires sc != nil
+//@   let n0 = gCompN
+//@   let skip = ctx == nil || ctx.entry == nil || blocked(ctx.RuleCheckResult)
+//@   ensures[blocked-no-completion] skip ==> gCompN == n0
+//@   ensures[completed-once-in-order] !skip ==> gCompN == n0 + len(sc.stats) && (forall j Int :: n0 <= j && j < gCompN ==> sel(gCompRecv, j) == dynptr(sc.stats[j - n0]))
+//@   modifies gCompN, gCompRecv, gAdded
+//@   loop 1:
+//@     invariant gCompN == n0 + #i && (forall j Int :: n0 <= j && j < gCompN ==> sel(gCompRecv, j) == dynptr(sc.stats[j - n0]))
+
+//@ func (e *SentinelEntry) Exit(exitOps)
+//@   props C01, C16
+//@   requires e != nil && (e.sc != nil ==> e.sc.ctxPool != nil) && (e.ctx != nil ==> e.ctx.Input != nil)
+//@   panics never
+//@   let done0 = oncedone(e.exitCtl)
+//@   let ctx = e.ctx
+//@   let c0 = gCompN
+//@   let wasBlocked = ctx != nil && blocked(ctx.RuleCheckResult)
+//@   case plain: len(exitOps) == 0
+//@   case with-options: len(exitOps) > 0
+//@   ensures[idempotent] done0 ==> gCompN == c0 && gHandlerN == old(gHandlerN) && gAdded == old(gAdded) && gConc == old(gConc) && (ctx != nil ==> ctx.err == old(ctx.err) && ctx.Resource == old(ctx.Resource))
+//@   ensures[marks-done] ctx != nil ==> oncedone(e.exitCtl)
+//@   ensures[completion-at-most-once] gCompN == c0 || (!done0 && !wasBlocked && e.sc != nil && gCompN == c0 + len(e.sc.stats) && (forall j Int :: c0 <= j && j < gCompN ==> sel(gCompRecv, j) == dynptr(e.sc.stats[j - c0])))
+//@   ensures[blocked-no-completion] wasBlocked ==> gCompN == c0
+//@   ensures[recycled] !done0 && ctx != nil && e.sc != nil ==> ctx.Resource == nil && ctx.err == nil && dynptr(ctx.StatNode) == 0
+//@   replay base_exit_late_error@api
+//@   loop 1:
+//@     invariant[no-option-no-error] len(exitOps) == 0 ==> options.err == nil
